@@ -16,6 +16,8 @@ import (
 func constantBool(c *ssa.Const) bool     { return constant.BoolVal(c.Value) }
 func constantString(c *ssa.Const) string { return constant.StringVal(c.Value) }
 
+type noopCall struct{ res *types.Tuple }
+
 type deferred struct {
 	fn    Value
 	args  []Value
@@ -105,11 +107,18 @@ func (th *Thread) call(caller *frame, callpos token.Pos, fn Value, args []Value)
 		return th.callSSA(caller, callpos, fn.fn, args, fn.env)
 	case *ssa.Builtin:
 		return th.callBuiltin(caller, callpos, fn, args)
+	case noopCall:
+		if fn.res.Len() == 0 {
+			return nil
+		}
+		return th.eng.zero(fn.res)
 	}
 	panic(fmt.Sprintf("cannot call %T", fn))
 }
 
 func (th *Thread) goPanic(msg string) {
+	th.eng.event("runtime-panic", msg+" at "+th.eng.pos(th.pos))
+	th.eng.lastPanicPos = th.eng.pos(th.pos)
 	panic(targetPanic{Iface{types.Typ[types.String], Str{s: msg}}})
 }
 
@@ -246,6 +255,10 @@ func (th *Thread) prepareCall(fr *frame, call *ssa.CallCommon) (fn Value, args [
 		fn = v
 	} else {
 		recv := v.(Iface)
+		if call.Method.Pkg() != nil && call.Method.Pkg().Path() == "github.com/mdzio/go-logging" {
+			// logging is stubbed out (arguments were already evaluated)
+			return noopCall{call.Method.Type().(*types.Signature).Results()}, nil
+		}
 		if recv.t == nil {
 			th.goPanic("runtime error: invalid memory address or nil pointer dereference (method call on nil interface)")
 		}
@@ -368,16 +381,38 @@ func (th *Thread) visitInstr(fr *frame, instr ssa.Instruction) continuation {
 		*addr = e.zero(instr.Type().Underlying().(*types.Pointer).Elem())
 
 	case *ssa.MakeSlice:
-		n := int64(e.path.Concretize(fr.get(instr.Len).(*Term), "make len"))
-		c := int64(e.path.Concretize(fr.get(instr.Cap).(*Term), "make cap"))
+		lt := th.toInt64(fr.get(instr.Len).(*Term), instr.Len.Type())
+		ct := th.toInt64(fr.get(instr.Cap).(*Term), instr.Cap.Type())
+		et := instr.Type().Underlying().(*types.Slice).Elem()
+		if !ct.IsConst() || !lt.IsConst() {
+			// Go panics for a negative or absurd size; a size above the ceiling is an allocation event
+			th.check(p.Cmp(OpSle, p.BV(0, 64), lt), "runtime error: makeslice: len out of range")
+			th.check(p.Cmp(OpSle, lt, ct), "runtime error: makeslice: cap out of range")
+			if !e.path.Branch(p.Cmp(OpSle, ct, p.BV(uint64(e.w.cfg.AllocCeiling), 64))) {
+				e.event("alloc", fmt.Sprintf("make of more than %d elements at %s", e.w.cfg.AllocCeiling, e.pos(instr.Pos())))
+				e.lastPanicPos = e.pos(instr.Pos())
+				panic(targetPanic{Iface{types.Typ[types.String], Str{s: "allocation above the ceiling (fatal: out of memory)"}}})
+			}
+			if b, ok := et.Underlying().(*types.Basic); ok && b.Kind() == types.Uint8 && !(e.path.FewValues(lt, 64) && e.path.FewValues(ct, 64)) {
+				// symbolic size with many values: a zeroed byte object held in one SMT array
+				e.narr++
+				obj := &ArrObj{name: fmt.Sprintf("arr%d", e.narr), arr: p.ConstArr(p.BV(0, 8)), size: -1}
+				fr.env[instr] = Slice{arr: obj, off: p.BV(0, 64), ln: lt, cp: ct}
+				break
+			}
+		}
+		n := int64(e.path.Concretize(lt, "make len"))
+		c := int64(e.path.Concretize(ct, "make cap"))
 		if n < 0 || c < n {
 			th.goPanic("runtime error: makeslice: len out of range")
 		}
 		if c > e.w.cfg.AllocCeiling {
 			e.event("alloc", fmt.Sprintf("make of %d elements exceeds ceiling %d at %s", c, e.w.cfg.AllocCeiling, e.pos(instr.Pos())))
-			th.goPanic("runtime error: makeslice: cap out of range (allocation ceiling)")
+			th.goPanic("allocation above the ceiling (fatal: out of memory)")
 		}
-		et := instr.Type().Underlying().(*types.Slice).Elem()
+		if c > 1<<22 {
+			panic(inconclusive{fmt.Sprintf("concrete allocation of %d elements", c)})
+		}
 		data := make([]Value, c)
 		z := e.zero(et)
 		for i := range data {
